@@ -476,8 +476,10 @@ def run(chk, repo, tier):
         n_paths = 0
         for p in paths:
             calls = []
+            new_depths = set()
+            early_helpers = []
             for e in p.events:
-                if e.kind != 'call' or e.depth != 0:
+                if e.kind != 'call':
                     continue
                 ck = str(e.data.get('callee', ''))
                 if not repo.has_func(ck):
@@ -485,6 +487,14 @@ def run(chk, repo, tier):
                 g = repo.func(ck)
                 if g.is_property or ck.endswith('.ptype') or ck.endswith('.shape') or ck.endswith('.pixelscale'):
                     continue      # attribute reads
+                from ..interp import known_functions as _known
+                if ck not in _known():
+                    new_depths.add(e.depth + 1)       # a helper introduced later is followed: what it calls counts
+                    if not calls:
+                        early_helpers.append(g)
+                    continue
+                if e.depth != 0 and e.depth not in new_depths:
+                    continue
                 calls.append(ck)
             if not calls:
                 continue
@@ -500,6 +510,13 @@ def run(chk, repo, tier):
                 first_call = next((line(e.node) for e in p.events if e.kind == 'call' and e.depth == 0
                                    and str(e.data.get('callee', '')) == calls[0]), None)
                 tests = [t for t in tests if t is not None]
+                # ... or inside a helper (introduced later) that runs before that call
+                in_helper = any(isinstance(c, Poly) and any((a[0] == 'attr' and a[2] in ('ptype', '_ptype')) or (a[0] == 'sym' and 'ptype' in str(a[1]))
+                                                            for a in nf.value_atoms(c)) and line(nd) is not None and
+                                any(h.node.lineno <= line(nd) <= getattr(h.node, 'end_lineno', h.node.lineno) for h in early_helpers)
+                                for c, pol, nd in p.conds)
+                if in_helper:
+                    continue
                 if not (tests and first_call is not None and min(tests) < first_call):
                     first_bad.append(f'{calls[0]} runs before the plane-type test [{p.status}]')
         chk.ob('C08-g', 'D-dominance', key, 'the plane-type test precedes every other step that can refuse', not first_bad and n_paths > 0,
